@@ -70,6 +70,9 @@ func (m *mon) c04() {
 	}
 	disp := func(s *sub) int {
 		if s.jobPtr != nil {
+			if x, ok := m.dequeueAt[m.s.ObjID(s.jobPtr)]; ok {
+				return x
+			}
 			if x, ok := m.dispatchAt[m.s.ObjID(s.jobPtr)]; ok {
 				return x
 			}
